@@ -541,7 +541,7 @@ func checkWeights(c *vlib.Case, d *disc, w weightKind, wm map[[2]C3]float64) boo
 }
 
 func secBoundaryWeights(r *vlib.Run) {
-	r.Section("boundary-weights", r.N(3000, 10000), vlib.SectionOpts{}, func(c *vlib.Case) {
+	r.Section("boundary-weights", r.N(3000, 10000), vlib.SectionOpts{}, replayable(r, func(c *vlib.Case) {
 		rng := c.Rng
 		s := genDisc(rng, r.N(10, 30))
 		if s == nil {
@@ -565,7 +565,7 @@ func secBoundaryWeights(r *vlib.Run) {
 		}
 		c.Nontrivial(s.desc + "|boundary-weights")
 		c.Sample("boundary-weights", 2, map[string]interface{}{"input": s.desc, "boundary_vertices": len(d.loop), "interior_vertices": len(d.interior)})
-	})
+	}))
 }
 
 func randPNorm(rng *rand.Rand) boundaryKind {
@@ -937,7 +937,7 @@ func sameEdgeMap(a, b map[[2]C3]float64) bool {
 }
 
 func secFloater(r *vlib.Run) {
-	r.Section("floater", r.N(4000, 14000), vlib.SectionOpts{}, func(c *vlib.Case) {
+	r.Section("floater", r.N(4000, 14000), vlib.SectionOpts{}, replayable(r, func(c *vlib.Case) {
 		rng := c.Rng
 		var d *disc
 		if rng.Intn(4) == 0 {
@@ -1025,7 +1025,7 @@ func secFloater(r *vlib.Run) {
 				c.Count("extend.vertices_moved", int64(moved))
 			}
 		}
-	})
+	}))
 }
 
 func goToCoordMap(m map[C3]C2) *model3d.CoordMap[C2] {
@@ -1040,7 +1040,7 @@ func goToCoordMap(m map[C3]C2) *model3d.CoordMap[C2] {
 // stretch minimisation
 
 func secStretch(r *vlib.Run) {
-	r.Section("stretch", r.N(800, 3000), vlib.SectionOpts{}, func(c *vlib.Case) {
+	r.Section("stretch", r.N(800, 3000), vlib.SectionOpts{}, replayable(r, func(c *vlib.Case) {
 		rng := c.Rng
 		s := genDisc(rng, r.N(8, 20))
 		if s == nil {
@@ -1105,5 +1105,5 @@ func secStretch(r *vlib.Run) {
 		c.Count("stretch.final_weights_checked", 1)
 		c.Nontrivial(s.desc + "|" + desc)
 		c.Sample("stretch", 2, map[string]interface{}{"input": s.desc, "call": desc})
-	})
+	}))
 }
